@@ -10,6 +10,7 @@ with the layout computed here from the property text (uuid, hashlib).
 """
 import hashlib
 import os
+import time
 import shutil
 import subprocess
 import tempfile
@@ -37,6 +38,7 @@ def _stale(*paths):
     for p in paths:
         with open(p, "wb") as fh:
             fh.write(STALE)
+        os.utime(p, (time.time() + 3600, time.time() + 3600))      # ... and NEWER than every input: file times are not an input
 
 
 def rewritten(path):
